@@ -335,6 +335,8 @@ def _prologue_end_abs(text, tree):
         cc = gen_source.char_col(lines[ln - 1], co)
         if getattr(n, "decorator_list", None):
             ln, cc = gen_source.decorator_at(lines, n.decorator_list[0])
+        elif not isinstance(n, (ast.Import, ast.ImportFrom)) and cc and not lines[ln - 1][:cc].strip(" \t\f"):
+            cc = 0      # whitespace (a form feed) in front of the first token belongs to the statement
         return min(offs[ln - 1] + cc, len(text))
     return len(text)
 
